@@ -157,7 +157,11 @@ pub fn profile_for(prop: &str) -> Profile {
     let base = [20, 10, 8, 8, 5, 3, 8, 8, 8, 8, 3, 2, 1, 2, 1, 2];
     let mut p = Profile { weights: base, max_ops: 60, uniform: false, plan_prob: 2, big_sizes: true };
     match prop {
-        "C01" | "C02" => {}
+        "C01" => {}
+        "C02" => {
+            // more str operations: a quarter of them are collections / boxes handed over to the arena
+            p.weights[5] = 9;
+        }
         "C03" => {
             p.weights = [20, 6, 6, 6, 3, 2, 6, 4, 5, 3, 6, 3, 4, 1, 5, 3];
             p.plan_prob = 6;
